@@ -216,10 +216,12 @@ def run(ck):
                     v, vp = (tens(it, "v", ("Bv", "nv")), tens(it, "vp", ("Bp", "nv"))) if expand else (tens(it, "v", ("B", "nv")), tens(it, "vp", ("B", "nv")))
                     Ra_, Rp_ = role_terms(it, it.get_attr(s, "rbm_am", None)), role_terms(it, it.get_attr(s, "rbm_ph", None))
                     g = call(it, s, "pi_grad", v, vp, phase=VConst(phase), expand=VConst(expand))
-                    return Ra_, Rp_, g
+                    m_ = it.get_attr(s, "rbm_am", None)
+                    role_of_ = {n: r for r, (n, _) in params_by_shape(it, m_).items()}
+                    return Ra_, Rp_, g, [role_of_[n] for n, _ in module_params(it, m_)]
 
                 for p in returning(paths_of(prog, thq), inst):
-                    Ra, Rp, g = p.value
+                    Ra, Rp, g, order_ = p.value
                     v, vp = T.sym("v"), T.sym("vp")
                     ma, mpa = aff(v, Ra["U"], Ra["d"]), aff(vp, Ra["U"], Ra["d"])
                     mp_, mpp = T.app("matmul", v, T.app("t", Rp["U"])), T.app("matmul", vp, T.app("t", Rp["U"]))
@@ -252,7 +254,34 @@ def run(ck):
                         want_t = rv - cv if phase else rv + cv
                         d = lin_diff(tmp, want_t)
                         ck.check(diff_verdict(d), "C03.R6", inst + ":dPi/dU multiplies sigmoid by (s %s s')" % ("-" if phase else "+"), psite, "the configuration factor of the U gradient: " + diff_msg(d), got=tmp)
-                    segs = getattr(g.obj, "segments", None)
+                    # the segments themselves, by value: dPi/dd = s (the sigmoid; s i for the phase network, whose auxiliary bias has no
+                    # gradient), dPi/dU = s (x) (sigma +- sigma') / 2, nothing for W, b, c - "gradients are the NLL gradients" for every
+                    # parameter block, not only for the ones the sigmoid argument and the configuration factor decide
+                    sig = sc[0][6] if isinstance(sc[0][6], T.Poly) else getattr(sc[0][4], "term", None)
+                    sp_ = T.as_stack0(sig) if sig is not None else None
+                    comps = T.as_stack0(g.term) if g.term is not None else None
+                    if sp_ is None or len(sp_) != 2 or comps is None or len(comps) != 2:
+                        ck.undecided("C03.R6", inst + ":segments", psite, "pi_grad or its sigmoid is not a (re, im) pair")
+                        continue
+                    rv, cv = (T.app("unsq", v, -2, 3), T.app("unsq", vp, -3, 3)) if expand else (v, vp)
+                    tmp_w = rv - cv if phase else rv + cv
+                    spair = (-sp_[1], sp_[0]) if phase else (sp_[0], sp_[1])
+                    for part, comp, sg_ in (("real", comps[0], spair[0]), ("imaginary", comps[1], spair[1])):
+                        at = comp.single_atom()
+                        if at is None or not isinstance(at, T.App) or at.op != "cat" or len(at.args[0]) != 5:
+                            ck.undecided("C03.R6", inst + ":%s part: segments" % part, psite, "pi_grad is not a concatenation of one segment per parameter of the purification network")
+                            continue
+                        want_seg = {"W": T.ZERO, "b": T.ZERO, "c": T.ZERO, "d": T.ZERO if phase else sg_,
+                                    "U": T.Fraction(1, 2) * T.app("einsum2", "...j,...k->...jk", sg_, tmp_w)}
+                        for st, r_ in zip(at.args[0], order_):
+                            got = _pair_einsum(_strip_flat(st))
+                            w = want_seg[r_]
+                            if got == w:
+                                ck.ok("C03.R6", "%s:%s part:dPi/d%s" % (inst, part, r_), psite)
+                            else:
+                                d = lin_diff(got, w)
+                                ck.check(diff_verdict(d), "C03.R6", "%s:%s part:dPi/d%s" % (inst, part, r_), psite,
+                                         "Pi-gradient segment of %s vs the derivative of Pi (sigmoid for the auxiliary bias, sigmoid x (s %s s') / 2 for U, 0 otherwise): %s" % (r_, "-" if phase else "+", diff_msg(d)), got=got, want=w)
 
     # num_pars equals the layout size
     for rbm in ("BinaryRBM", "PurificationRBM"):
@@ -526,6 +555,26 @@ def show(shape):
     from ..values import show_shape
 
     return show_shape(shape)
+
+
+def _pair_einsum(t):
+    """idx0(einsum2('c<A>,<B>-><c><O>', stack0(x0, x1), y), k) = einsum2('<A>,<B>-><O>', xk, y): a contraction that carries the
+    (re, im) axis of its first operand through unchanged is the contraction of each component."""
+    if t is None:
+        return None
+
+    def fn(a):
+        if isinstance(a, T.App) and a.op == "idx0" and isinstance(a.args[1], int):
+            e = a.args[0].single_atom() if hasattr(a.args[0], "single_atom") else None
+            if isinstance(e, T.App) and e.op == "einsum2" and isinstance(e.args[0], str) and "->" in e.args[0]:
+                ins, out = e.args[0].split("->")
+                ab = ins.split(",")
+                st = T.as_stack0(e.args[1])
+                if len(ab) == 2 and st is not None and ab[0][:1].isalpha() and out[:1] == ab[0][:1] and ab[0][0] not in ab[1] and ab[0][0] not in ab[0][1:] and 0 <= a.args[1] < len(st):
+                    return T.app("einsum2", "%s,%s->%s" % (ab[0][1:], ab[1], out[1:]), st[a.args[1]], e.args[2])
+        return None
+
+    return T.subst(t, fn)
 
 
 def _strip_flat(t):
